@@ -10,7 +10,7 @@
 //! `tests` below compare the model with the real std::path on every component list up to length 5
 //! over {name1, name2, ., ..} with and without a root, for components/push/pop.
 
-pub const CAP: usize = 10;
+pub const CAP: usize = 16;
 
 #[derive(Clone, Copy, PartialEq, Eq, Debug, Hash)]
 pub struct Name(pub u8);
